@@ -102,6 +102,10 @@ instance (ρ o v) : Decidable (orange ρ o v) := by cases o <;> unfold orange <;
 /-- a `!=` loop terminates (and covers `[lo, hi)`) only when it starts at or below its bound -/
 def Range.sane (ρ : Env) (r : Range) : Prop := r.ne = true → evalZ ρ r.lo ≤ evalZ ρ r.hi
 
+def Write.sane (ρ : Env) (w : Write) : Prop :=
+  (match w.rows with | some r => r.sane ρ | none => True) ∧
+  (match w.cols with | some r => r.sane ρ | none => True)
+
 /-- syntactic sanity of a write: loop variables are the coordinates of the target -/
 def Write.ok (w : Write) : Bool :=
   (w.rows.isNone || isVar w.row 3) && (w.cols.isNone || isVar w.col 4)
